@@ -48,7 +48,7 @@ ROWS = {
          "T: processBlocks with its go/WaitGroup pattern as a task/join node (Argon2IR.processBlocks_ir_eq_model, processSegment_ir_eq_model), indexAlpha, goroutine-structure facts",
          "purego-race:argonsched (GOMAXPROCS 1,2,3,16 + noise goroutines, keys = sequential model, goroutine count), argon", "that the go/Wait syntax has the modelled meaning is runtime behaviour (observed)"),
  "C10": ("C10General.roundtrip_L6 / roundtrip_general and TiWf.roundtrip_of_typeInfoOf: for an ARBITRARY struct type that getTypeInfo accepts (tiWf is proved for everything typeInfoOf builds from supported field types) and a value inside the explicit decidable hypothesis (Unambiguous ∧ groupsSeparated; typed ∧ Representable ∧ lastTextOk ∧ noSteal) Unmarshal(Marshal v) = v — params, inline, codecs, groups, omitempty, trailing optionals; needs_* (each clause necessary); strconv round trips; parse∘render; roundtrip_/canonical_⟨S⟩ for the ten shipped layouts",
-         "T: shapes, and the type-info layer (TypeInfoIR: getRawTypeInfo with its tag loop, field, normalize, cold getTypeInfo regenerated = fieldOpts/rawFields/resolveParam/normalizeLoop/typeInfoOf) and the Marshal side (CodecIR: Marshal, marshalValue, marshal, indirect, isEmpty regenerated = Codec.marshal) · H: Unmarshal walker",
+         "T: shapes, and the type-info layer (TypeInfoIR: getRawTypeInfo with its tag loop, field, normalize, cold getTypeInfo regenerated = fieldOpts/rawFields/resolveParam/normalizeLoop/typeInfoOf) and the Marshal side (CodecIR: Marshal, marshalValue, marshal, indirect, isEmpty regenerated = Codec.marshal, linked to the regenerated getTypeInfo) and most of the Unmarshal side (CodecIRU/U2: unmarshal on a value or prefix node = fieldText + storeValue for every field kind; the field loop = loopFields without grouped params; the end checks) · H: the grouped-param clause of the Unmarshal loop and its top-level assembly",
          "codec (run-time generated struct types incl. layout-shaped ones; round trip, re-marshal stability; the in-domain direct check uses the theorem's hypothesis)", "codec model tied differentially; F12"),
  "C11": ("parse_lossless, parse_eq_ref (= split-based reference on every input), spans_exact, values_no_delim, groups_surface_once, parse_error_iff, lexer terminal token last, lexer_goroutine_facts (regenerated)",
          "T: the whole lexer and parser (ParseFlow/DispatchFlow: regenerated structured IR = model, for every input), goroutine-structure facts", "parse (all strings ≤ 7 over the delimiter alphabet + random; token streams via hook; goroutine count)", "the channel is modelled as a producer list (rendezvous); goroutine exit observed"),
@@ -71,7 +71,7 @@ ROWS = {
  "C19": ("secretSafe'_⟨S⟩ decided on the regenerated flow IR of every Check; secretSafe'_sound, mismatch_cost_independent_of_position/_of_key (cost semantics), ⟨S⟩_mismatch_cost", "T: flow IR",
          "flowcheck (names the offending statement)", "statement translator; machine-level constant time of subtle/encoders"),
  "C20": ("C10General.accepted_respell_all / TiWf.accepted_respell_of_typeInfoOf: for an ARBITRARY struct type that getTypeInfo accepts, with consistent options, every accepted string is a tolerated respelling of Marshal(value read); needs_* (exclusions necessary); Accept.accepts_only_respellings_⟨S⟩ for the ten layouts; parser lossless/exact (C11)",
-         "T: shapes, and the type-info layer (TypeInfoIR: getRawTypeInfo with its tag loop, field, normalize, cold getTypeInfo regenerated = fieldOpts/rawFields/resolveParam/normalizeLoop/typeInfoOf) and the Marshal side (CodecIR: Marshal, marshalValue, marshal, indirect, isEmpty regenerated = Codec.marshal) · H: Unmarshal walker",
+         "T: shapes, and the type-info layer (TypeInfoIR: getRawTypeInfo with its tag loop, field, normalize, cold getTypeInfo regenerated = fieldOpts/rawFields/resolveParam/normalizeLoop/typeInfoOf) and the Marshal side (CodecIR: Marshal, marshalValue, marshal, indirect, isEmpty regenerated = Codec.marshal, linked to the regenerated getTypeInfo) and most of the Unmarshal side (CodecIRU/U2: unmarshal on a value or prefix node = fieldText + storeValue for every field kind; the field loop = loopFields without grouped params; the end checks) · H: the grouped-param clause of the Unmarshal loop and its top-level assembly",
          "codec (edit-distance-1 neighbourhoods, splices incl. duplicated parameters and wrap-around integers, short strings; accepted-but-unwritable values)", "codec model tied differentially; F10, F13, F14, F15"),
 }
 
@@ -183,12 +183,13 @@ functions or adding comments leaves the programs unchanged (checked for each tra
 | `hash/typeinfo.go`: `getRawTypeInfo` (tag loop, embedded structs), `(*typeInfo).field` (`sort.Slice` = any sorted permutation), `normalize`, `indirectType`, cold path of `getTypeInfo` | type-info IR `TIIR` (records behind pointers, `reflect.Type` as operations over struct descriptions) | `Props/TypeInfoIR.lean` | C10, C20, C18 |
 | `argon2/argon2crypto` (purego path): `Key`, `initHash`, `initBlocks`, `processBlocks` + `processSegment` closure (go/WaitGroup pattern as task/join node, sequential schedule), `extractKey`, `indexAlpha`, `phi`, `blake2bHash`, `processBlock(XOR)`, `processBlockGeneric`, `blamkaGeneric` | Argon2 IR `A2IR` (typed words with wrap-around, heap with pointer aliasing) | `Props/Argon2IR.lean` (`key_ir_eq_model`, `key_ir_eq_rfc`) | C04, C09 |
 | `des/descrypt/des.go`: `permute816`, `permute1616`, `keySchedules`, `Encrypt` | DES IR (tables by name from the regenerated `Gen/Tables`) | `Props/DesIR.lean` (`encrypt_ir_eq_model`, `desPrims_spec`, `*_full`) | C03, C05 |
-| `hash/marshal.go`: `Marshal`, `marshalValue`, `marshal`, `indirect`, `isEmpty` | codec IR (on the type-info IR's heap; `reflect.Value` as operations over a value model) | `Props/CodecIR.lean` (`marshal_eq_model`) | C10, C20 |
+| `hash/marshal.go`: `Marshal`, `marshalValue`, `marshal`, `indirect`, `isEmpty` | codec IR (on the type-info IR's heap; `reflect.Value` as operations over a value model) | `Props/CodecIR.lean` (`marshal_eq_model`), `CodecIRLink.lean` (`marshal_eq_model_typeInfoOf`) | C10, C20 |
+| `hash/unmarshal.go`: `Unmarshal`, `unmarshal`, `newUnmarshalError`, `unmarshalIndirect` (destination cells, parse nodes, stores through `reflect.Value`, `defer` lowered to an epilogue) | codec IR | `Props/CodecIRU.lean`, `CodecIRU2.lean`: `unmarshal_value_eq_model` / `unmarshal_prefix_eq_model` (every field kind), `step_eq_stepField`, `loop_eq_loopFields` (no grouped params), `after_loop_eq_model`; the whole `Unmarshal` runs against `Codec.unmarshal` + `finalVals` in 19 `#guard` examples | C10, C20 |
 | `internal/hashutil`: `NewEncoding`, `Encode`, `Decode`, `IndexAnyInvalid`, `Rand`, package variables; `cryptoutil.Rand`; `sha1.randRounds` | stream IR + library description `miscLib` (crypto/rand as scripted entropy reader) | `Props/MiscIR.lean` | C15, C05 |
 | `hash/typeinfo.go`: the whole of `getTypeInfo` (warm + cold path; `typeCache.Load`/`LoadOrStore` as atomic steps) | type-info IR with a cache state (`Base/TIIRCache.lean`, conservative over `TIIR`) | `Props/TypeCacheIR.lean` (= `Model/TypeCache.lean` per call and per history; privacy; keying; interleavings) | C18, C08 |
 | constants, DES / permutation / alphabet tables, struct shapes and text codecs, `init` registrations, import / shared-state / goroutine-structure facts, index kernels (`indexAlpha`, `phi`, base64 shift/mask expressions, `randRounds`) | Lean definitions | used directly by the models | all |
 
-Still hand-written (tied by the correspondence suites only): the `Unmarshal` walker beyond its text half and string fields (`Model/Codec.lean`, unmarshal half; the regenerated `Unmarshal` is run against the model on examples), the concurrency protocol of the registry (`Model/Conc.lean`, tied by measured protocol facts and the race detector), the text (un)marshalers of the scheme field types (recognised by strict pattern matching in `gogen`), and the hash/cipher primitives that live outside the repository (MD4, MD5, SHA-1/2, Blowfish, BLAKE2b: `Prim/`, validated differentially). Model limits the regenerated proofs exposed (all outside every property's domain, stated as hypotheses of the equality theorems): `decoder.Read` on a reader that answers `(0, nil)` forever (Go spins; the model's fuel runs out silently); `omitempty` on a field of a kind outside the documented ones (bool, float, map, interface …: Go's `isEmpty` knows them and omits an empty one, the model treats the field as rejected); a partially nil pointer chain `**T` (Go writes `p=`, the model reads `.nilPtr` as 'the field itself is nil'); `EncodedLen` beyond 2^60 and negative padding runes other than `NoPadding` (Go wraps / pads with `byte(r)`; the model's `Nat`/`Option UInt8` cannot say it); DES round counts ≥ 2^32 (not expressible by a Go caller).
+Still hand-written (tied by the correspondence suites only): the grouped-param clause of `Unmarshal`'s field loop and the assembly of its top level (`Model/Codec.lean`: `stepField` with an open group, `unmarshalTree`; the regenerated `Unmarshal` is run against the model on examples and the per-field and loop theorems are proved), the concurrency protocol of the registry (`Model/Conc.lean`, tied by measured protocol facts and the race detector), the text (un)marshalers of the scheme field types (recognised by strict pattern matching in `gogen`), and the hash/cipher primitives that live outside the repository (MD4, MD5, SHA-1/2, Blowfish, BLAKE2b: `Prim/`, validated differentially). Model limits the regenerated proofs exposed (all outside every property's domain, stated as hypotheses of the equality theorems): `decoder.Read` on a reader that answers `(0, nil)` forever (Go spins; the model's fuel runs out silently); `omitempty` on a field of a kind outside the documented ones (bool, float, map, interface …: Go's `isEmpty` knows them and omits an empty one, the model treats the field as rejected); a partially nil pointer chain `**T` (Go writes `p=`, the model reads `.nilPtr` as 'the field itself is nil'); `EncodedLen` beyond 2^60 and negative padding runes other than `NoPadding` (Go wraps / pads with `byte(r)`; the model's `Nat`/`Option UInt8` cannot say it); DES round counts ≥ 2^32 (not expressible by a Go caller).
 
 ### 0.2 Per property
 
@@ -333,7 +334,7 @@ an unknown node. The interpreters are also run on concrete inputs (`#guard`) aga
 models and, by the agents who wrote them, against the real Go code.
 Correspondence: differential, seeded (`VERIF_SEED`, default 1), with the generator's distribution in
 the evidence. It now covers everything twice where a body is regenerated, and alone ties: the
-`Unmarshal` walker beyond string fields, the registry's concurrency
+grouped-param clause and top level of `Unmarshal`, the registry's concurrency
 protocol, the text (un)marshalers of the scheme field types.
 Modelled rather than verified, or only executed: `reflect`, `strconv`, `sync.Map`, goroutines /
 channels / WaitGroup, the Go memory model, `crypto/*` and x/crypto primitives (Lean copies in
